@@ -77,7 +77,7 @@ def dist_parse(cases):
 PARSE_PROPS = {
     "C01": P(["Model/LrDriver.v", "Proofs/Totality.v", "Proofs/ParserState.v", "Proofs/Typing.v", "Proofs/Ainfer.v", "Proofs/UserTyped.v",
               "Proofs/Automaton.v", "Proofs/LexerSafe.v", "Proofs/StackInv.v", "Proofs/DriverSafe.v", "Proofs/StackProp.v", "Proofs/ArityOk.v",
-              "Properties/C01.v"], [],
+              "Proofs/LexProgress.v", "Properties/C01.v"], [],
              gens.gen_C01,
              "hand-picked crashers of the pinned tree + character soups, token soups, mutated/truncated documents, multi-byte characters and "
              "Unicode whitespace injected into gaps/comments/docs/strings, sets of up to 6 partly malformed files, generic nesting to depth "
@@ -86,7 +86,7 @@ PARSE_PROPS = {
              x_checks=["keys", "determinism", "history"],
              py_oracle=o_C01, trusted_base=TB_PARSE, assumptions=ASSUME_PARSE + ["native stack depth and running time are observed (no abort, no timeout), not proved"],
              distribution=dist_parse),
-    "C02": P(["Model/LrDriver.v", "Proofs/Sim.v", "Proofs/Hom.v", "Proofs/UserHom.v", "Proofs/Lockstep.v", "Properties/C02.v"], [], gens.gen_C02,
+    "C02": P(["Model/LrDriver.v", "Proofs/Sim.v", "Proofs/Hom.v", "Proofs/UserHom.v", "Proofs/Lockstep.v", "Proofs/LexProgress.v", "Properties/C02.v"], [], gens.gen_C02,
              "abstract documents over all item/member/type/value/annotation forms (types nested to depth 4, trailing commas), each rendered "
              "in 4 layouts (minimal separators; single spaces; wild: Unicode whitespace, CRLF, line/block comments with arbitrary text; safe); "
              "the tree must mirror the abstract document (names, kinds, structure, directions, flags, codes, values, annotations) in "
